@@ -186,6 +186,10 @@ Proof.
       rewrite upd_same. cbn. rewrite H in Hp. inversion Hp; subst. constructor; [exact Logic.I | assumption].
     + rewrite sub_of_mk, reg_get_del_same. split; [reflexivity|]. cbn [r_cs]. rewrite upd_same. cbn.
       rewrite H in Hp. now inversion Hp.
+    + (* cancel *) rewrite sub_of_mk. split; [exact Hs | exact Hp].
+    + (* skip *) rewrite sub_of_with_cs. split; [assumption|]. cbn [r_cs with_cs]. rewrite upd_same. cbn.
+      rewrite H in Hp. now inversion Hp.
+    + (* defer *) rewrite sub_of_mk. split; [exact Hs|]. cbn [r_cs]. rewrite upd_same. cbn. repeat constructor.
   - destruct (ctl_fields _ _ (trans_ctl_other s l s' x T Hlab)) as (Epc & _). rewrite Epc. split; [|assumption].
     rewrite (sub_of_reg_eq s s' x sub); [assumption|]. eapply env_reg; [eassumption | now apply not_label_not_run].
 Qed.
@@ -267,7 +271,8 @@ Proof.
   { destruct (label_of_conn x l) eqn:Hl; [|reflexivity]. exfalso.
     inversion T; subst; cbn [label_of_conn] in Hl; try discriminate.
     all: try (match goal with H1 : _ = LVisit _ _ _ \/ _ |- _ => destruct H1 as [->|[-> _]]; cbn in Hl end).
-    all: apply Nat.eqb_eq in Hl; subst x; congruence. }
+    all: apply Nat.eqb_eq in Hl; subst x;
+      first [congruence | contradiction | (rewrite (inv_cancel s I c) in Hd by assumption; discriminate)]. }
   destruct (ctl_fields _ _ (trans_ctl_other s l _ x T Hl)) as (Epc & Ed & _).
   split; [split; congruence|].
   destruct (dat_trans s l _ x T)
@@ -401,7 +406,7 @@ Theorem enabled_ignores_queues s1 s2 l :
   (forall c, c_pc (r_cs s1 c) = c_pc (r_cs s2 c) /\ c_rd (r_cs s1 c) = c_rd (r_cs s2 c)) ->
   enabled s1 l = enabled s2 l.
 Proof.
-  intros Hp Hc. destruct l as [c o|c|c c' ord|c|c]; try reflexivity.
+  intros Hp Hc. destruct l as [c o|c|c c' ord|c|c|c]; try reflexivity.
   unfold enabled. destruct (Hc c) as [E1 E2]. rewrite <- E1, <- E2, <- Hp.
   destruct (c_pc (r_cs s1 c)) as [|i rest]; [reflexivity|]. destruct i; try reflexivity.
   all: destruct todo as [|[sub fs] todo]; [reflexivity|]; try rewrite trysend_has_default; reflexivity.
@@ -440,13 +445,13 @@ Proof. apply step_pc_other. Qed.
 (** * From "EOSE received" to [established] *)
 
 Theorem req_end_established buf s x sub :
-  reachable buf s -> c_pc (r_cs s x) = [IEose sub] ->
+  reachable buf s -> c_pc (r_cs s x) = [IEose sub] -> ~ In x (r_cancel s) ->
   exists fs ops0,
     c_ops (r_cs s x) = ops0 ++ [OReq sub fs] /\
     established (step s (LRun x)) x sub fs /\
     c_out (r_cs (step s (LRun x)) x) = c_out (r_cs s x) ++ [MEose sub].
 Proof.
-  intros R Hpc. pose proof (Inv_reachable buf s R) as I.
+  intros R Hpc Hnc. pose proof (Inv_reachable buf s R) as I.
   pose proof (inv_pc s I x) as P. rewrite Hpc in P.
   destruct (pc_ok_inv_eose_last _ _ _ _ P) as (fs & ops0 & Hs & Ho).
   exists fs, ops0. split; [assumption|].
@@ -454,6 +459,6 @@ Proof.
   { destruct (c_dead (r_cs s x)) eqn:Hd; [|reflexivity].
     destruct (inv_dead s I x Hd) as [E|[E _]]; rewrite E in Hpc; discriminate. }
   unfold step, enabled. rewrite Hpc. cbn [step_enabled]. unfold run_instr. rewrite Hpc.
-  unfold established, quiet. rewrite sub_of_with_cs. cbn [r_cs with_cs]. rewrite upd_same. cbn.
+  unfold established, quiet, quiet0. rewrite sub_of_with_cs. cbn [r_cs r_cancel with_cs]. rewrite upd_same. cbn.
   repeat split; auto.
 Qed.
